@@ -278,6 +278,9 @@ def single_cases(draw):
     fn = draw(st.sampled_from(sorted(M.ENTRIES)))
     e = M.ENTRIES[fn]
     L = draw(lists)
+    if e.elems == 'intnull':
+        L = draw(st.lists(st.one_of(elems, st.none(), st.none()),
+                          max_size=7))
     args, lam = draw(_args_for(e, L, fn))
     return {'fn': fn, 'c': L, 'ckind': draw(st.sampled_from(e.kinds)),
             'args': {k: common.enc(v) for k, v in args.items()}, 'lam': lam}
@@ -313,6 +316,13 @@ values = st.one_of(elems, st.sampled_from(['v', None]),
                    st.dictionaries(st.sampled_from(['a', 'b']), elems,
                                    max_size=2))
 dicts = st.dictionaries(keys, values, max_size=4)
+# dictionaries nested several levels deep with lists at the leaves, sharing
+# keys so that deep merges have something to merge
+deep_dicts = st.recursive(
+    st.one_of(elems, st.lists(elems, max_size=3), st.none()),
+    lambda ch: st.dictionaries(st.sampled_from(['a', 'b', 'c']), ch,
+                               max_size=3), max_leaves=8).filter(
+    lambda v: isinstance(v, dict))
 
 
 @st.composite
@@ -324,6 +334,10 @@ def dict_cases(draw):
             'n': draw(st.integers(0, 3))}
     if fn in ('set-inline', 'map-expr', 'dict-fn'):
         args['k'] = draw(st.sampled_from(['a', 'b', 'q']))
+    if fn.startswith('mergeWith') and draw(st.booleans()):
+        args['d'] = list(draw(deep_dicts).items())
+        args['d2'] = draw(deep_dicts)
+        args['n'] = draw(st.integers(-1, 4))
     return {'kind': 'dict', 'fn': fn,
             'args': {k: common.enc(v) for k, v in args.items()}}
 
